@@ -38,6 +38,12 @@ struct ParkWaker {
 
 impl futures::task::ArcWake for ParkWaker {
     fn wake_by_ref(a: &Arc<Self>) {
+        // a waker may do work of its own (an executor's queue, a pipe): a visible step, so that
+        // what the routing thread does around a wake can be interleaved with the other tasks (its
+        // dispatch is otherwise pure user-space code between two waits)
+        unsafe {
+            libc::sched_yield();
+        }
         a.count.fetch_add(1, Ordering::SeqCst);
         a.woken.store(true, Ordering::SeqCst);
         a.thread.unpark();
